@@ -6,8 +6,10 @@ package main
 // fraction of programs one or two injected template errors.
 
 import (
+	"encoding/json"
 	"fmt"
 	"math/rand"
+	"strconv"
 	"strings"
 )
 
@@ -30,7 +32,8 @@ type scope struct {
 	itDom  [][]string // their possible values
 	depth  int
 	isRoot bool
-	mult   int // how many instances of this node exist (product of enclosing range sizes)
+	mult   int   // how many instances of this node exist (product of enclosing range sizes)
+	encl   *Node // the aggregator under construction that will hold the node
 }
 
 func (g *gen15) id() int { g.nextID++; return g.nextID }
@@ -111,6 +114,89 @@ func (g *gen15) kvs(sc scope, max int, allowRef bool) []KV {
 	return out
 }
 
+func allNumeric(ss []string) bool {
+	for _, s := range ss {
+		if _, err := strconv.Atoi(s); err != nil {
+			return false
+		}
+	}
+	return len(ss) > 0
+}
+
+// outerRange makes the range of a nested iterator an expression of an enclosing
+// iteration variable, so that every generated outer role must get its own inner
+// children: a JSON list built from the outer value, begin/end computed from a
+// numeric outer value, or a list variable defined per generated enclosing role.
+func (g *gen15) outerRange(sc scope, itVar string, id int) (*IterSpec, []string, bool) {
+	if len(sc.itVars) == 0 {
+		return nil, nil, false
+	}
+	j := len(sc.itVars) - 1
+	if g.r.Intn(4) == 0 {
+		j = g.r.Intn(len(sc.itVars))
+	}
+	ov, odom := sc.itVars[j], sc.itDom[j]
+	if len(odom) == 0 {
+		return nil, nil, false
+	}
+	it := &IterSpec{Var: itVar}
+	var dom []string
+	if allNumeric(odom) && g.r.Intn(2) == 0 {
+		b := g.r.Intn(3)
+		if g.r.Intn(2) == 0 {
+			// 'b' .. outer value (empty for outer values below b)
+			it.Begin, it.End = Lit(fmt.Sprint(b)), Ref(ov)
+			max := 0
+			for _, s := range odom {
+				if v, _ := strconv.Atoi(s); v > max {
+					max = v
+				}
+			}
+			for v := b; v <= max; v++ {
+				dom = append(dom, fmt.Sprint(v))
+			}
+		} else {
+			// outer value .. fixed end
+			e := 0
+			for _, s := range odom {
+				if v, _ := strconv.Atoi(s); v > e {
+					e = v
+				}
+			}
+			e += g.r.Intn(2)
+			it.Begin, it.End = Ref(ov), Lit(fmt.Sprint(e))
+			for v := 0; v <= e; v++ {
+				dom = append(dom, fmt.Sprint(v))
+			}
+		}
+		return it, dom, true
+	}
+	it.List = true
+	sufs := []string{"a", "b", "c"}[:1+g.r.Intn(3)]
+	lst := Tpl{{K: PLit, S: "["}}
+	for i, s := range sufs {
+		if i > 0 {
+			lst = append(lst, Part{K: PLit, S: ","})
+		}
+		lst = append(lst, Part{K: PLit, S: `"`}, Part{K: PRef, S: ov}, Part{K: PLit, S: s + `"`})
+	}
+	lst = append(lst, Part{K: PLit, S: "]"})
+	for _, o := range odom {
+		for _, s := range sufs {
+			dom = append(dom, o+s)
+		}
+	}
+	if sc.encl != nil && g.r.Intn(2) == 0 {
+		// the list is a var of the enclosing (generated) role
+		vn := fmt.Sprintf("lst%d", id)
+		sc.encl.Vars = append(sc.encl.Vars, KV{K: vn, V: lst})
+		it.Range = Ref(vn)
+	} else {
+		it.Range = lst
+	}
+	return it, dom, true
+}
+
 func (g *gen15) iterSpec(sc scope, itVar string) (*IterSpec, []string) {
 	size := g.r.Intn(5) // 0..4
 	switch p := g.r.Intn(100); {
@@ -166,11 +252,23 @@ func (g *gen15) node(sc scope, rootVars *[]KV) *Node {
 	csc.depth++
 	csc.isRoot = false
 	name := Tpl{{K: PLit, S: fmt.Sprintf("r%d", n.ID)}}
-	if g.r.Intn(100) < 30 && g.budget > 2 {
+	pIter := 30
+	if len(sc.itVars) > 0 {
+		pIter = 45 // nested iterators
+	}
+	if g.r.Intn(100) < pIter && g.budget > 2 {
 		itVar := fmt.Sprintf("it%d", sc.depth)
-		spec, dom := g.iterSpec(sc, itVar)
+		var spec *IterSpec
+		var dom []string
+		outerDep := false
+		if g.r.Intn(100) < 60 {
+			spec, dom, outerDep = g.outerRange(sc, itVar, n.ID)
+		}
+		if !outerDep {
+			spec, dom = g.iterSpec(sc, itVar)
+		}
 		// range taken from a variable defined at the root (vars), in a third of the cases
-		if g.r.Intn(3) == 0 {
+		if !outerDep && g.r.Intn(3) == 0 {
 			vn := fmt.Sprintf("rng%d", n.ID)
 			if spec.List {
 				*rootVars = append(*rootVars, KV{K: vn, V: spec.Range})
@@ -267,6 +365,7 @@ func (g *gen15) children(n *Node, sc scope, rootVars *[]KV) {
 	if sc.depth == 1 && k < 2 {
 		k = 2
 	}
+	sc.encl = n
 	for i := 0; i < k; i++ {
 		n.Children = append(n.Children, g.node(sc, rootVars))
 		if g.budget <= 0 {
@@ -332,23 +431,155 @@ type nodeInfo struct {
 	isSub    bool
 	liveInst int // enabled instances in the error-free prediction
 	reached  int
+	parent   int // id of the enclosing node (0 for the root)
 }
 
 func collect(root *Node) map[int]*nodeInfo {
 	out := map[int]*nodeInfo{}
-	var walk func(n *Node, inIter, isRoot, isSub bool)
-	walk = func(n *Node, inIter, isRoot, isSub bool) {
+	var walk func(n *Node, inIter, isRoot, isSub bool, parent int)
+	walk = func(n *Node, inIter, isRoot, isSub bool, parent int) {
 		in := inIter || n.Iter != nil
-		out[n.ID] = &nodeInfo{n: n, inIter: in, isRoot: isRoot, isSub: isSub}
+		out[n.ID] = &nodeInfo{n: n, inIter: in, isRoot: isRoot, isSub: isSub, parent: parent}
 		for _, c := range n.Children {
-			walk(c, in, false, false)
+			walk(c, in, false, false, n.ID)
 		}
 		if n.Sub != nil {
-			walk(n.Sub, in, false, true)
+			walk(n.Sub, in, false, true, n.ID)
 		}
 	}
-	walk(root, false, true, false)
+	walk(root, false, true, false, 0)
 	return out
+}
+
+func inSubtree(infos map[int]*nodeInfo, id, top int) bool {
+	for id != 0 {
+		if id == top {
+			return true
+		}
+		id = infos[id].parent
+	}
+	return false
+}
+
+// useTpl is the SAME expression text wherever it is used.
+func useTpl(v string, form int) Tpl {
+	switch form {
+	case 0:
+		return Tpl{{K: PRef, S: v}}
+	case 1:
+		return Tpl{{K: PEq, S: v, Lit: "a"}}
+	}
+	return Tpl{{K: PLit, S: "u-"}, {K: PRef, S: v}}
+}
+
+// addUse puts the expression into a field of n; returns the field name.
+func addUse(r *rand.Rand, ni *nodeInfo, t Tpl, legit bool) string {
+	n := ni.n
+	var fields []string
+	fields = append(fields, "constraints")
+	if legit {
+		// in the defining role only fields of stage 4/5 see the role's own var
+		if n.Kind == "task" || n.Kind == "call" {
+			fields = append(fields, "timeoutlike")
+		}
+	} else {
+		fields = append(fields, "vars", "defaults")
+		if !ni.isRoot && !ni.isSub {
+			fields = append(fields, "enabled", "name")
+		}
+	}
+	if n.Kind == "include" || ni.isSub {
+		fields = []string{"vars"}
+		if legit {
+			fields = []string{"name"}
+			if ni.isSub {
+				return ""
+			}
+		}
+	}
+	f := fields[r.Intn(len(fields))]
+	switch f {
+	case "constraints":
+		n.Constraints = append(n.Constraints, KV{K: "svattr", V: t})
+	case "timeoutlike":
+		n.Connect = append(n.Connect, Chan{Name: "svch", Type: "pull", Target: t})
+		if n.Kind == "call" {
+			n.Connect = n.Connect[:len(n.Connect)-1]
+			n.Constraints = append(n.Constraints, KV{K: "svattr", V: t})
+			f = "constraints"
+		} else {
+			f = "connect"
+		}
+	case "vars":
+		n.Vars = append(n.Vars, KV{K: "svuse", V: t})
+	case "defaults":
+		n.Defaults = append(n.Defaults, KV{K: "svuse", V: t})
+	case "enabled":
+		if t[0].K == PEq {
+			n.Enabled, n.EnabledBare = t, false
+		} else {
+			n.Enabled, n.EnabledBare = Tpl{{K: PEq, S: t[len(t)-1].S, Lit: "a"}}, false
+		}
+	case "name":
+		n.Name = append(append(Tpl{}, n.Name...), append(Tpl{{K: PLit, S: "_"}}, t...)...)
+	}
+	return f
+}
+
+// injectScoped: a variable defined in one role (vars) and used, with the same
+// expression text, both where it is visible (the defining role's late stages and
+// its subtree) and in a role outside that subtree, where it is undefined: the
+// load must fail, whatever was evaluated before (sibling, goroutine, earlier load).
+func injectScoped(r *rand.Rand, infos map[int]*nodeInfo) ([]injection, bool) {
+	var live []*nodeInfo
+	for _, ni := range infos {
+		if ni.liveInst > 0 {
+			live = append(live, ni)
+		}
+	}
+	sortInfos(live)
+	if len(live) < 3 {
+		return nil, false
+	}
+	for try := 0; try < 20; try++ {
+		a := live[r.Intn(len(live))]
+		if a.isRoot || a.isSub {
+			continue
+		}
+		var outside []*nodeInfo
+		for _, b := range live {
+			if !inSubtree(infos, b.n.ID, a.n.ID) && !b.isSub {
+				outside = append(outside, b)
+			}
+		}
+		if len(outside) == 0 {
+			continue
+		}
+		b := outside[r.Intn(len(outside))]
+		v := fmt.Sprintf("sv%d", r.Intn(3))
+		form := r.Intn(3)
+		t := useTpl(v, form)
+		a.n.Vars = append(a.n.Vars, KV{K: v, V: Lit([]string{"a", "b"}[r.Intn(2)])})
+		// legitimate uses: the defining role itself and/or a live role below it
+		used := false
+		if r.Intn(2) == 0 {
+			used = addUse(r, a, t, true) != ""
+		}
+		for _, d := range live {
+			if d != a && inSubtree(infos, d.n.ID, a.n.ID) && !d.isSub && (r.Intn(2) == 0 || !used) {
+				if addUse(r, d, t, false) != "" {
+					used = true
+					break
+				}
+			}
+		}
+		if !used {
+			used = addUse(r, a, t, true) != ""
+		}
+		f := addUse(r, b, t, false)
+		return []injection{{Node: b.n.ID, Field: f, Kind: "scoped-variable-undefined-here/defined-at-" + fmt.Sprint(a.n.ID)}}, true
+	}
+	return nil, false
 }
 
 // markLive fills liveInst from an error-free prediction.
@@ -480,7 +711,12 @@ type Program struct {
 	RootName   string            `json:"root"`
 	Injections []injection       `json:"injections,omitempty"`
 	Files      map[string]string `json:"files"`
-	root       *Node
+	// expr-reuse: a program that loads fine and evaluates the same expression texts,
+	// loaded in the same process right before the program proper
+	PrimerName  string            `json:"primer,omitempty"`
+	PrimerFiles map[string]string `json:"primerFiles,omitempty"`
+	root        *Node
+	primer      *Node
 }
 
 // genProgram builds program idx. Families:
@@ -551,10 +787,25 @@ func genProgram(r *rand.Rand, prefix string, idx int) *Program {
 			root.Children = append(root.Children, c)
 		}
 		p.root = root
+	case fam < 22:
+		p.Family = "nested-iter"
+		p.root = g.nestedIter(prefix)
+	case fam < 30:
+		p.Family = "expr-reuse"
+		g.exprReuse(p, prefix)
 	default:
 		p.Family = "generic"
 		p.root = g.rootNode(prefix)
-		if r.Intn(100) < 33 {
+		if q := r.Intn(100); q < 18 {
+			tree, _, st := Predict(p.root, Layer{})
+			if len(st.Errs) == 0 {
+				infos := collect(p.root)
+				markLive(tree, infos)
+				if injs, ok := injectScoped(r, infos); ok {
+					p.Injections = injs
+				}
+			}
+		} else if q < 46 {
 			tree, _, st := Predict(p.root, Layer{})
 			if len(st.Errs) == 0 {
 				infos := collect(p.root)
@@ -574,5 +825,182 @@ func genProgram(r *rand.Rand, prefix string, idx int) *Program {
 		}
 	}
 	p.Files = Files(p.root)
+	if p.primer != nil {
+		p.PrimerFiles = Files(p.primer)
+	}
 	return p
+}
+
+// nestedIter: an outer iterator over an aggregator that contains an inner
+// iterator whose range is an expression of the outer iteration variable
+// (optionally a third level), so that copies of the inner iterator must not share
+// their range.
+func (g *gen15) nestedIter(name string) *Node {
+	r := g.r
+	root := &Node{ID: g.id(), Kind: "agg", Name: Lit(name)}
+	for _, k := range gNames {
+		root.Defaults = append(root.Defaults, KV{K: k, V: Lit(g.pick(gVals))})
+	}
+	root.Defaults = append(root.Defaults, KV{K: "tmo", V: Lit("7s")})
+	outer := &Node{ID: g.id(), Kind: "agg", Name: Tpl{{K: PLit, S: "o-"}, {K: PRef, S: "it1"}}}
+	var odom []string
+	n := 2 + r.Intn(4)
+	outer.Iter = &IterSpec{Var: "it1"}
+	if r.Intn(2) == 0 {
+		b := r.Intn(3)
+		outer.Iter.Begin, outer.Iter.End = Lit(fmt.Sprint(b)), Lit(fmt.Sprint(b+n-1))
+		for v := b; v < b+n; v++ {
+			odom = append(odom, fmt.Sprint(v))
+		}
+	} else {
+		outer.Iter.List = true
+		var el []string
+		for j := 0; j < n; j++ {
+			odom = append(odom, fmt.Sprintf("h%d", j+1))
+			el = append(el, fmt.Sprintf(`"h%d"`, j+1))
+		}
+		outer.Iter.Range = Lit("[" + strings.Join(el, ",") + "]")
+	}
+	sc := scope{itVars: []string{"it1"}, itDom: [][]string{odom}, depth: 2, mult: n, encl: outer}
+	mk := func(sc scope, depth int, leafOK bool) *Node {
+		in := &Node{ID: g.id()}
+		itVar := fmt.Sprintf("it%d", depth)
+		spec, dom, ok := g.outerRange(sc, itVar, in.ID)
+		if !ok {
+			spec, dom = g.iterSpec(sc, itVar)
+		}
+		_ = dom
+		in.Iter = spec
+		in.Name = Tpl{{K: PLit, S: fmt.Sprintf("i%d-", in.ID)}, {K: PRef, S: itVar}}
+		switch r.Intn(3) {
+		case 0:
+			in.Kind, in.Class = "task", g.pick(taskClasses)
+		case 1:
+			in.Kind, in.Func, in.Trigger = "call", "testplugin.Noop()", g.pick(triggers)
+		default:
+			in.Kind = "agg"
+			in.Children = []*Node{{ID: g.id(), Kind: "task", Class: g.pick(taskClasses), Name: Lit("leaf")}}
+		}
+		if r.Intn(3) == 0 {
+			in.Constraints = []KV{{K: "rack", V: Tpl{{K: PRef, S: sc.itVars[len(sc.itVars)-1]}, {K: PLit, S: "/"}, {K: PRef, S: itVar}}}}
+		}
+		return in
+	}
+	inner := mk(sc, 2, true)
+	outer.Children = append(outer.Children, inner)
+	if r.Intn(2) == 0 {
+		outer.Children = append(outer.Children, &Node{ID: g.id(), Kind: "task", Class: "t1", Name: Lit("plain")})
+	}
+	if r.Intn(3) == 0 {
+		// a second inner iterator depending on the same outer variable
+		outer.Children = append(outer.Children, mk(sc, 2, true))
+	}
+	if inner.Kind == "agg" && r.Intn(2) == 0 {
+		// third level: depends on the middle variable
+		var mdom []string
+		tree, _, _ := Predict(&Node{ID: 9999, Kind: "agg", Name: Lit("x"), Defaults: root.Defaults, Children: []*Node{outer}}, Layer{})
+		var walk func(x *XRole)
+		seen := map[string]bool{}
+		walk = func(x *XRole) {
+			if x == nil {
+				return
+			}
+			if v, ok := x.Bound["it2"]; ok && !seen[v] {
+				seen[v] = true
+				mdom = append(mdom, v)
+			}
+			for _, c := range x.Children {
+				walk(c)
+			}
+		}
+		walk(tree)
+		if len(mdom) > 0 {
+			sc3 := scope{itVars: []string{"it1", "it2"}, itDom: [][]string{odom, mdom}, depth: 3, mult: n * len(mdom), encl: inner}
+			inner.Children = append(inner.Children, mk(sc3, 3, true))
+		}
+	}
+	root.Children = []*Node{outer}
+	if r.Intn(2) == 0 {
+		root.Children = append(root.Children, &Node{ID: g.id(), Kind: "call", Func: "testplugin.Noop()", Trigger: g.pick(triggers), Name: Lit("side")})
+	}
+	return root
+}
+
+func cloneNode(n *Node) *Node {
+	b, _ := json.Marshal(n)
+	var out Node
+	_ = json.Unmarshal(b, &out)
+	return &out
+}
+
+// exprReuse: a primer program in which a variable is defined in one role and used
+// by several expressions below it, and the program proper, identical except that
+// the definition is missing (every one of those expressions must now fail) and
+// that the role order may be reversed. The primer is loaded first in the same
+// process: nothing evaluated earlier may make the second program load.
+func (g *gen15) exprReuse(p *Program, name string) {
+	r := g.r
+	v := fmt.Sprintf("sv%d", r.Intn(3))
+	mkRoot := func(nm string) *Node {
+		root := &Node{ID: 1, Kind: "agg", Name: Lit(nm)}
+		for _, k := range gNames {
+			root.Defaults = append(root.Defaults, KV{K: k, V: Lit("a")})
+		}
+		return root
+	}
+	primer := mkRoot(name + "pr")
+	g.nextID = 1
+	a := &Node{ID: g.id(), Kind: "agg", Name: Lit("a"), Vars: []KV{{K: v, V: Lit("a")}}}
+	nuse := 1 + r.Intn(3)
+	var uses []injection
+	for i := 0; i < nuse; i++ {
+		c := &Node{ID: g.id(), Kind: "task", Class: g.pick(taskClasses), Name: Lit(fmt.Sprintf("u%d", i))}
+		if r.Intn(3) == 0 {
+			c.Kind, c.Class, c.Func, c.Trigger = "call", "", "testplugin.Noop()", g.pick(triggers)
+		}
+		t := useTpl(v, r.Intn(3))
+		f := []string{"vars", "defaults", "constraints", "enabled", "name"}[r.Intn(5)]
+		switch f {
+		case "vars":
+			c.Vars = []KV{{K: "svuse", V: t}}
+		case "defaults":
+			c.Defaults = []KV{{K: "svuse", V: t}}
+		case "constraints":
+			c.Constraints = []KV{{K: "svattr", V: t}}
+		case "enabled":
+			c.Enabled = Tpl{{K: PEq, S: v, Lit: "a"}}
+		case "name":
+			c.Name = append(c.Name, append(Tpl{{K: PLit, S: "_"}}, t...)...)
+		}
+		uses = append(uses, injection{Node: c.ID, Field: f, Kind: "same-text-as-in-primer/variable-undefined-here"})
+		a.Children = append(a.Children, c)
+	}
+	if r.Intn(2) == 0 {
+		// the expression also in an iterated role
+		c := &Node{ID: g.id(), Kind: "call", Func: "testplugin.Noop()", Trigger: g.pick(triggers),
+			Name: Tpl{{K: PLit, S: "w-"}, {K: PRef, S: "it1"}}, Iter: &IterSpec{Var: "it1", Begin: Lit("1"), End: Lit(fmt.Sprint(2 + r.Intn(5)))},
+			Constraints: []KV{{K: "svattr", V: useTpl(v, r.Intn(3))}}}
+		uses = append(uses, injection{Node: c.ID, Field: "constraints", Kind: "same-text-as-in-primer/variable-undefined-here"})
+		a.Children = append(a.Children, c)
+	}
+	primer.Children = []*Node{a, {ID: g.id(), Kind: "task", Class: "t1", Name: Lit("other")}}
+	target := cloneNode(primer)
+	target.Name = Lit(name)
+	ta := target.Children[0]
+	ta.Vars = nil
+	switch r.Intn(3) {
+	case 0:
+		// defined, but in a sibling subtree only
+		target.Children[1] = &Node{ID: target.Children[1].ID, Kind: "agg", Name: Lit("other"), Vars: []KV{{K: v, V: Lit("a")}},
+			Children: []*Node{{ID: g.id(), Kind: "task", Class: "t1", Name: Lit("ok"), Constraints: []KV{{K: "svattr", V: useTpl(v, 0)}}}}}
+		if r.Intn(2) == 0 {
+			target.Children[0], target.Children[1] = target.Children[1], target.Children[0]
+		}
+	case 1:
+		if r.Intn(2) == 0 {
+			target.Children[0], target.Children[1] = target.Children[1], target.Children[0]
+		}
+	}
+	p.root, p.primer, p.PrimerName = target, primer, name+"pr"
+	p.Injections = uses
 }
